@@ -5,3 +5,6 @@ import CruxVerif.Props.C01
 #print axioms Props.C01.C01_run_all_drains
 #print axioms Props.C01.C01_command_settled
 #print axioms Props.C01.C01_nothing_left_in_hosted_command
+#print axioms Props.C01.core_call_quiescent_flat
+#print axioms Props.C01.process_quiescent_flat
+#print axioms Props.C01.wake_takes_and_queues
